@@ -73,7 +73,10 @@ def helper_oracle(res: Result, rng: random.Random, fails: list, n: int):
             avps.append(gen.rfc_wire(264, 0, 0x40, b"peer.host"))
             avps.append(gen.rfc_wire(296, 0, 0x40, b"peer.realm"))
             body = b"".join(avps)
-            data = gen.rfc_header(1, 20 + len(body), flags, code, 4, rng.getrandbits(32), rng.getrandbits(32)) + body
+            # (the request's application id need not be the one the Application object was created with)
+            req_app = rng.choice([4, 4, 0, 1, 3, 16777238, 0xffffffff])
+            req_hbh, req_e2e = rng.getrandbits(32), rng.getrandbits(32)
+            data = gen.rfc_header(1, 20 + len(body), flags, code, req_app, req_hbh, req_e2e) + body
             try:
                 req = Message.from_bytes(data)
             except Exception:
@@ -86,6 +89,18 @@ def helper_oracle(res: Result, rng: random.Random, fails: list, n: int):
                     wire = ans.as_bytes()
                 except Exception as ex:  # noqa
                     fails.append({"what": f"{who} helper raised {type(ex).__name__}", "line": f"HELPER {who} {data.hex()}"})
+                    continue
+                try:
+                    hv = gen.rfc_parse_header(wire)
+                    # version, length, flags, code, application id, hop-by-hop, end-to-end
+                    if (hv[3], hv[4], hv[5], hv[6]) != (code, req_app, req_hbh, req_e2e) or hv[2] & 0x80 \
+                            or (hv[2] & 0x40) != (flags & 0x40):
+                        fails.append({"what": f"{who} helper answer header does not mirror the request (code/app/ids; R clear, P as "
+                                              "in the request)", "line": f"HELPER {who} {data.hex()}", "real": wire[:20].hex(),
+                                      "expected": f"code={code} app={req_app} hbh={req_hbh} e2e={req_e2e}"})
+                        continue
+                except gen.WireError as ex:
+                    fails.append({"what": f"{who} helper answer header does not parse: {ex}", "line": f"HELPER {who} {data.hex()}"})
                     continue
                 try:
                     got = gen.rfc_parse_avps(wire[20:])
@@ -101,7 +116,7 @@ def helper_oracle(res: Result, rng: random.Random, fails: list, n: int):
                 # a typed answer class that does not declare Session-Id / Proxy-Info
                 # (CE, DW, DP: RFC 6733 gives them none) cannot carry them
                 if typed:
-                    declared = {dd.attr_name for dd in type(ans).avp_def}
+                    declared = {dd.attr_name for dd in getattr(type(ans), "avp_def", ())}
                     if "session_id" not in declared and (263, 0) in missing:
                         missing.remove((263, 0))
                     if "proxy_info" not in declared and (284, 0) in missing:
